@@ -307,6 +307,11 @@ func body(c *sched.Ctl, cs Case, v *ev.Verdict) {
 			} else if in.tok.rec.id != recIdx {
 				fail("C07", "keyed:wrong-record", "key %d: goroutine bound to record %d runs the routine of record %d", key, in.tok.rec.id, recIdx)
 			}
+			if in.tok != nil && in.tok.first && ctx.Err() != nil {
+				// (an instance that waits for a predecessor may find both its context and the wait
+				// channel ready and enter either way; one without a predecessor looks first)
+				fail("C07", "keyed:entered-after-cancel", "key %d: the first instance of record %d entered its function although its context had been cancelled before it began to execute (the key was removed or the context cleared in between)", key, recIdx)
+			}
 		}
 		hm.Unlock()
 		outcome := func(o string) error {
